@@ -37,6 +37,7 @@ MainSolver::MainSolver(Logic & logic, SMTConfig & conf, std::string name)
       ts(logic, *term_mapper),
       solver_name{std::move(name)} {
     conf.setUsedForInitiliazation();
+    OPENSMT_VERIF_DECL(verifId = verif::newSolverId(); verif::Scope verifScope(verifId);)
     initialize();
 }
 
@@ -53,6 +54,7 @@ MainSolver::MainSolver(std::unique_ptr<Theory> th, std::unique_ptr<TermMapper> t
       ts(logic, *term_mapper),
       solver_name{std::move(name)} {
     conf.setUsedForInitiliazation();
+    OPENSMT_VERIF_DECL(verifId = verif::newSolverId(); verif::Scope verifScope(verifId);)
     initialize();
 }
 
@@ -72,6 +74,7 @@ void MainSolver::initialize() {
 void MainSolver::push() {
     bool alreadyUnsat = isLastFrameUnsat();
     frames.push();
+    OPENSMT_VERIF(verif::Scope verifScope(verifId); verif::eventId("PUSH", frames.last().getId()));
     preprocessor.push();
     frameTerms.push(newFrameTerm(frames.last().getId()));
     termNames.pushScope();
@@ -80,6 +83,7 @@ void MainSolver::push() {
 
 bool MainSolver::pop() {
     if (getAssertionLevel() == 0) { return false; }
+    OPENSMT_VERIF(verif::Scope verifScope(verifId); verif::eventId("POP"));
 
     if (trackPartitions()) {
         ipartitions_t mask = 0;
@@ -107,6 +111,7 @@ void MainSolver::insertFormula(PTRef fla) {
     if (logic.getSortRef(fla) != logic.getSort_bool()) {
         throw ApiException("Top-level assertion sort must be Bool, got " + logic.sortToString(logic.getSortRef(fla)));
     }
+    OPENSMT_VERIF(verif::Scope verifScope(verifId); verif::term("A", frames.last().getId(), logic, fla));
     // TODO: Move this to preprocessing of the formulas
     fla = IteHandler(logic, getPartitionManager().getNofPartitions()).rewrite(fla);
 
@@ -311,6 +316,8 @@ std::unique_ptr<InterpolationContext> MainSolver::getInterpolationContext() {
 }
 
 sstat MainSolver::giveToSolver(PTRef root, FrameId push_id) {
+    OPENSMT_VERIF_DECL(verif::Scope verifScope(verifId);)
+    OPENSMT_VERIF(verif::term("R", push_id, logic, root));
 
     struct ClauseCallBack : public Cnfizer::ClauseCallBack {
         std::vector<vec<Lit>> clauses;
@@ -341,6 +348,7 @@ sstat MainSolver::giveToSolver(PTRef root, FrameId push_id) {
 }
 
 sstat MainSolver::check() {
+    OPENSMT_VERIF_DECL(verif::Scope verifScope(verifId);)
     ++check_called;
     if (config.timeQueries()) {
         printf("; %s query time so far: %f\n", solver_name.c_str(), query_timer.getTime());
@@ -406,6 +414,7 @@ sstat MainSolver::solve_(vec<FrameId> const & enabledFrames) {
         assumps[i - 1] = assumps[i];
     }
     assumps.pop();
+    OPENSMT_VERIF(verif::clause('a', assumps));
     return smt_solver->solve(assumps, !config.isIncremental(), config.isIncremental());
 }
 
